@@ -1,0 +1,56 @@
+//go:build verif
+
+package errutil
+
+// Contracts for the deductive verifier in /verif (comment-only file; see /verif/DESIGN.md).
+
+//@ type withPrefix invariant self.cause != nil
+//@ method (*withPrefix).Cause
+//@   props C07 C10 C14
+//@   ensures result == self.cause
+//@ method (*withPrefix).Unwrap
+//@   props C07 C10 C14
+//@   ensures result == self.cause
+
+//@ type withNewMessage invariant self.cause != nil
+//@ method (*withNewMessage).Cause
+//@   props C07 C10 C14
+//@   ensures result == self.cause
+//@ method (*withNewMessage).Unwrap
+//@   props C07 C10 C14
+//@   ensures result == self.cause
+
+//@ method (*leafError).Error
+//@   props C10
+//@   ensures result == strip(self.msg)
+
+//@ method (*withNewMessage).Error
+//@   props C10
+//@   ensures result == strip(self.message)
+
+//@ func WithMessage
+//@   props C10 C07 C12
+//@   ensures err == nil ==> result == nil
+//@   ensures err != nil ==> typeis(result, *withPrefix) && result.(*withPrefix).cause == err
+
+//@ func WithMessagef
+//@   props C10 C07
+//@   ensures err == nil ==> result == nil
+//@   ensures err != nil ==> typeis(result, *withPrefix) && result.(*withPrefix).cause == err
+
+//@ func decodeLeaf
+//@   props C05 C01
+//@   ensures !typeis(payload, *errorspb.StringPayload) ==> result == nil
+//@   ensures typeis(payload, *errorspb.StringPayload) ==> typeis(result, *leafError) && result.(*leafError).msg == payload.(*errorspb.StringPayload).Msg
+
+//@ func decodeWithPrefix
+//@   props C05 C01
+//@   requires cause != nil
+//@   ensures !typeis(payload, *errorspb.StringPayload) ==> result == nil
+//@   ensures typeis(payload, *errorspb.StringPayload) ==> typeis(result, *withPrefix) && result.(*withPrefix).cause == cause && result.(*withPrefix).prefix == payload.(*errorspb.StringPayload).Msg
+
+//@ func decodeWithNewMessage
+//@   props C05 C01
+//@   requires cause != nil
+//@   ensures !typeis(payload, *errorspb.StringPayload) ==> result == nil
+//@   ensures typeis(payload, *errorspb.StringPayload) ==> typeis(result, *withNewMessage) && result.(*withNewMessage).cause == cause && result.(*withNewMessage).message == payload.(*errorspb.StringPayload).Msg
